@@ -30,6 +30,9 @@ var c20Catalog = []c20Op{
 	{2, "a", "p", "", "a->p"},
 	{2, "p", END, "", "p->END"},
 	{3, "ghost", "a", "b", "branch ghost->{a,b}"},
+	{1, "q", "", "", "passthrough q"},
+	{2, "p", "q", "", "p->q"},
+	{2, "q", END, "", "q->END"},
 }
 
 func c20Apply(g *Graph[map[string]any, map[string]any], op c20Op) error {
@@ -274,7 +277,7 @@ func VerifC20Tail() {
 	for _, i := range base {
 		ops = append(ops, c20Catalog[i])
 	}
-	for i := 0; i < 2; i++ {
+	for i := 0; i < 3; i++ {
 		op := c20Catalog[vchoose("op", len(c20Catalog))]
 		ops = append(ops, op)
 		desc += op.name + "; "
